@@ -25,6 +25,13 @@ WATCHDOG_S = 5.0        # a call into the real code that has not returned by the
 TLA_CP = "/opt/veriftools/tla/tla2tools.jar:/opt/veriftools/tla/CommunityModules-deps.jar"
 
 
+def scratch_dir(prefix):
+    """scratch directory for real files of the code under test (LMDB environments, Filer trees): on tmpfs when there is
+    one, so that fsync() of the real code cannot stall a replay when the machine is busy"""
+    base = "/dev/shm" if os.path.isdir("/dev/shm") and os.access("/dev/shm", os.W_OK) else None
+    return tempfile.mkdtemp(prefix=prefix, dir=base)
+
+
 class MachineryError(Exception):
     pass
 
